@@ -79,3 +79,31 @@ def gen_ops(quick=True):
     for dim in ([3, 7, 9] if quick else [3, 7, 9, 15, 19, 21]):
         ops.append(f'C18 rootsupb quadres {dim}')
     return ops
+
+
+def selftest(quick=True):
+    """model (via `lake env lean --run Driver/C18RootsMain.lean`) against load_upb; returns (agree, differ list)"""
+    import os
+    import subprocess
+    here = os.path.dirname(os.path.dirname(os.path.abspath(__file__)))
+    ops = gen_ops(quick)
+    out = subprocess.run(['lake', 'env', 'lean', '--run', 'Driver/C18RootsMain.lean'], cwd=os.path.join(here, 'lean'),
+                         input='\n'.join(ops) + '\n', capture_output=True, text=True, check=True).stdout.splitlines()
+    differ = []
+    for op, got in zip(ops, out):
+        try:
+            want = impl_op(op)
+        except Exception as exc:  # implementation failure is a finding, not a harness crash
+            want = f'raised:{type(exc).__name__}'
+        if got.strip() != want:
+            differ.append((op, got[:80], want[:80]))
+    return len(ops) - len(differ), differ
+
+
+if __name__ == '__main__':
+    import sys
+    agree, differ = selftest(quick='thorough' not in sys.argv)
+    print(f'c18roots: {agree} agree / {len(differ)} differ')
+    for d in differ:
+        print(' ', d)
+    sys.exit(1 if differ else 0)
